@@ -19,7 +19,7 @@ RULE_TEXT = (
     "object side x 3 opposite-side names x 12 shapes: compact rule have_name_matching(rx) vs are_named(expansion), "
     "expansion computed by the harness with re.match over the module list; no match must raise a non-assertion error. "
     "Second exhaustive part: the batch law on T4 for every subject set and object set of 1-2 modules (overlapping and "
-    "related sets included) over all import relations with <= 2 (thorough 4) edges. Random part: Hypothesis trees with regexes / partial names built from the tree's own names (prefix-colliding "
+    "related sets included) over all import relations with <= 2 (thorough 4) edges. A quarter of the random compact cases give two or three expressions / partial names in one call (expansion = union; one member without a match => no verdict). Random part: Hypothesis trees with regexes / partial names built from the tree's own names (prefix-colliding "
     "siblings), and batches of 1-3 subjects and objects incl. related modules compared with the conjunction of "
     "single-subject (and, for plain should/should_not, single-object) rules. Partial names are expanded with the "
     "harness's own glob semantics, not with the repository's converter. Non-trivial: the expansion has >= 2 modules or "
@@ -45,7 +45,10 @@ def expand_regex(tree, rx) -> list:
 
 def compare_compact(ev, tree, imports, shape, side, kind, pattern, other, expansion) -> dict:
     v, d, e = shape
-    compact_side = {"kind": kind, "names": [pattern]}
+    if isinstance(pattern, list):  # several expressions / partial names in one call
+        compact_side = {"kind": "regex-batch" if kind == "regex" else "partial", "names": list(pattern), "as_str": False}
+    else:
+        compact_side = {"kind": kind, "names": [pattern]}
     exp_side = {"kind": "named", "names": expansion, "as_str": False}
     if side == "subj":
         rc, rx = mk(v, d, e, compact_side, other), mk(v, d, e, exp_side, other)
@@ -105,6 +108,13 @@ def check_case(spec: dict) -> dict:
     shape = tuple(spec["shape"])
     if spec["mode"] == "batch":
         return compare_batch(ev, tree, imports, shape, spec["subj"], spec["obj"])
+    if isinstance(spec["pattern"], list):
+        # a list of expressions stands for the union of their expansions; if one of them matches nothing there is no verdict
+        per = [expand_regex(tree, p) if spec["kind"] == "regex" else sorted(m for m in tree if M.glob_matches(p, m)) for p in spec["pattern"]]
+        expansion = sorted(set().union(*per)) if all(per) else []
+        res = compare_compact(ev, tree, imports, shape, spec["side"], spec["kind"], spec["pattern"], spec["other"], expansion)
+        res["labels"].append("list-of-expressions" + ("/one-without-match" if not all(per) and any(per) else ""))
+        return res
     if spec["kind"] == "regex":
         expansion = expand_regex(tree, spec["pattern"])
     else:
@@ -241,12 +251,16 @@ def plain_cases(draw):
         return {"mode": "batch", "tree": tree, "imports": [list(x) for x in imports], "shape": shape, "subj": subj, "obj": obj}
     kind = draw(st.sampled_from(["regex", "regex", "partial"]))
     pattern = draw(regex_for(tree) if kind == "regex" else glob_for(tree))
+    if draw(st.integers(0, 3)) == 0:
+        # two or three expressions / partial names in one call (a third of these lists has a member that matches nothing)
+        pattern = [pattern] + [draw(regex_for(tree) if kind == "regex" else glob_for(tree)) for _ in range(draw(st.integers(1, 2)))]
+        pattern = list(dict.fromkeys(pattern))
     other = {"kind": draw(st.sampled_from(RS.KINDS)),
              "names": sorted(set(draw(st.lists(st.sampled_from(tree), min_size=1, max_size=2))))}
     if kind == "regex":
-        exp = expand_regex(tree, pattern)
+        exp = [m for p in (pattern if isinstance(pattern, list) else [pattern]) for m in expand_regex(tree, p)]
     else:
-        exp = [m for m in tree if M.glob_matches(pattern, m)]
+        exp = [m for p in (pattern if isinstance(pattern, list) else [pattern]) for m in tree if M.glob_matches(p, m)]
     focus = set(exp) | set(other["names"])
     imports = draw(RS.import_relation(tree, focus=focus, max_edges=12))
     return {"mode": "compact", "tree": tree, "imports": [list(x) for x in imports], "shape": shape,
